@@ -18,6 +18,7 @@ import (
 	"fmt"
 	"math/big"
 	"os"
+	"os/exec"
 	"reflect"
 	"sort"
 	"strings"
@@ -829,25 +830,48 @@ func (rs *rawScen) step(si int, st *rawStep) rawGroup {
 	}
 	allLk := sim.lookups
 	sim.mu.Unlock()
+	// a scan of this step that did not ask for the receipt of the log just pushed is placed BEFORE the log: it may be the head of a poll
+	// that was in flight when the poller was switched off, processed before the insertion (if it ran after the insertion and the entry
+	// was not deep enough, the order makes no difference)
+	// a receipt request that arrives while a scan is running belongs to that scan only if an entry of that transaction can be pending
+	// (a re-observation request may overlap the scan of a head that was in flight when the poller was switched off)
+	pendTx := map[string]bool{}
+	for _, e := range pendBefore {
+		pendTx[e.Tx] = true
+	}
+	if st.Op == "log" {
+		pendTx[st.Log.Tx] = true
+	}
+	var before, after []rawOp
+	for _, s := range scans {
+		op := rawOp{T: "head", N: s.N, Lk: []lkJ{}}
+		touches := false
+		for _, lk := range allLk[s.From:s.To] {
+			if lk.Kind != kindTx || !pendTx[rs.txOfID(lk.Tx)] {
+				continue
+			}
+			// the full hash that was asked for: the sim records the id; the pending entries of this history carry the hash
+			op.Lk = append(op.Lk, lkJ{Tx: rs.txOfID(lk.Tx), C: lk.Code, St: lk.Status, BH: rs.bhOfID(lk.BH)})
+			if st.Op == "log" && rs.txOfID(lk.Tx) == st.Log.Tx {
+				touches = true
+			}
+		}
+		if st.Op == "log" && !touches {
+			before = append(before, op)
+		} else {
+			after = append(after, op)
+		}
+		sc.stats["scans"]++
+		sc.stats["lookups"] += len(op.Lk)
+	}
+	g.Ops = append(g.Ops, before...)
 	if first != nil {
 		if first.Lk == nil {
 			first.Lk = []lkJ{}
 		}
 		g.Ops = append(g.Ops, *first)
 	}
-	for _, s := range scans {
-		op := rawOp{T: "head", N: s.N, Lk: []lkJ{}}
-		for _, lk := range allLk[s.From:s.To] {
-			if lk.Kind != kindTx {
-				continue
-			}
-			// the full hash that was asked for: the sim records the id; the pending entries of this history carry the hash
-			op.Lk = append(op.Lk, lkJ{Tx: rs.txOfID(lk.Tx), C: lk.Code, St: lk.Status, BH: rs.bhOfID(lk.BH)})
-		}
-		g.Ops = append(g.Ops, op)
-		sc.stats["scans"]++
-		sc.stats["lookups"] += len(op.Lk)
-	}
+	g.Ops = append(g.Ops, after...)
 	sc.stats["forwarded"] += len(g.Fw)
 
 	// ------------------------------------------------ monitors: the generator's intended values
@@ -1088,6 +1112,86 @@ func runRawScenario(id int, cfg scenCfg, script []rawStep, times map[string]uint
 	return row
 }
 
+
+// ---------------------------------------------------------------- experiment (not a registered monitor): can a log under the CORE contract's
+// address end the process?  The child runs the real Run against the simulated node and is served (reobs) a receipt with a topic-less
+// core-contract log on a re-observation request, (sub) the same log on the subscription by a node that ignores the topic filter; the
+// parent reports how the child ended.
+type crashRow struct {
+	K      string `json:"k"`
+	How    string `json:"how"`
+	Exit   int    `json:"exit"`
+	Panic  string `json:"panic"`
+	Where  string `json:"where"`
+	Reason string `json:"reason"`
+}
+
+func TestVerifC10LogCrashChild(t *testing.T) {
+	how := os.Getenv("VERIF_C10_CRASH_CHILD")
+	if how == "" {
+		return
+	}
+	sc, err := startScen(scenCfg{Wait: true, Head0: 1000, PollMs: 1, Name: "crash-" + how})
+	if err != nil {
+		fmt.Println("CHILD-START-FAILED", err)
+		return
+	}
+	r := &erng{s: 7}
+	l := genRawLog(r, "notopics", false, 1, 1000)
+	tl := l.ethLog()
+	switch how {
+	case "reobs":
+		sc.sim.mu.Lock()
+		sc.sim.rawRcpts[tl.TxHash] = &types.Receipt{Status: 1, BlockHash: tl.BlockHash, BlockNumber: big.NewInt(1000), TxHash: tl.TxHash, Logs: []*types.Log{tl}}
+		sc.sim.mu.Unlock()
+		sc.obsvC <- &gossipv1.ObservationRequest{ChainId: uint32(sc.w.chainID), TxHash: tl.TxHash.Bytes()}
+	case "sub":
+		sc.sim.pushUnfiltered(tl)
+	}
+	time.Sleep(3 * time.Second)
+	fmt.Println("CHILD-SURVIVED")
+}
+
+func runCrashExperiment(how string) crashRow {
+	row := crashRow{K: "crash", How: how}
+	cmd := exec.Command(os.Args[0], "-test.run=^TestVerifC10LogCrashChild$", "-test.count=1")
+	cmd.Env = append(os.Environ(), "VERIF_C10_CRASH_CHILD="+how, "VERIF_OUT="+os.DevNull)
+	out, err := cmd.CombinedOutput()
+	if ee, ok := err.(*exec.ExitError); ok {
+		row.Exit = ee.ExitCode()
+	} else if err != nil {
+		row.Reason = err.Error()
+		row.Exit = -1
+	}
+	text := string(out)
+	if i := strings.Index(text, "panic: "); i >= 0 {
+		line := text[i:]
+		if j := strings.Index(line, "\n"); j >= 0 {
+			line = line[:j]
+		}
+		row.Panic = line
+		for _, fr := range []string{"by_transaction.go", "bind/base.go", "watcher.go"} {
+			if k := strings.Index(text[i:], fr); k >= 0 {
+				seg := text[i+k:]
+				if j := strings.Index(seg, "\n"); j >= 0 {
+					seg = seg[:j]
+				}
+				row.Where = strings.Fields(seg)[0]
+				break
+			}
+		}
+	}
+	switch {
+	case strings.Contains(text, "CHILD-SURVIVED"):
+		row.Reason = "the process survived"
+	case strings.Contains(text, "CHILD-START-FAILED"):
+		row.Reason = "the child could not start its scenario"
+	case row.Panic != "":
+		row.Reason = "the process ended with an unrecovered panic"
+	}
+	return row
+}
+
 // ---------------------------------------------------------------- the test
 func TestVerifC10Log(t *testing.T) {
 	out := newEvmOut(t)
@@ -1235,4 +1339,8 @@ func TestVerifC10Log(t *testing.T) {
 	}
 	close(bch)
 	wg.Wait()
+	if os.Getenv("VERIF_C10_REPLAY") == "" {
+		out.emit(runCrashExperiment("reobs"))
+		out.emit(runCrashExperiment("sub"))
+	}
 }
